@@ -43,6 +43,10 @@ CONFIG = {
              "through public calls (scale_edges, edge.length assignment, remove_child of a leaf, new_child, "
              "reroot_at_node) and queried again for 1-3 rounds; every answer is compared with the oracle on a fresh "
              "snapshot of the current state (pybus_harvey_gamma, which documents reuse of existing ages, is left out). "
+             "namespace: in every Hypothesis sub-check the tree's TaxonNamespace is, by a drawn mode, exactly the tip "
+             "taxa, or also holds 1-4 unused taxa (accessioned before or after the tip taxa), or the taxa of extra tips "
+             "that were attached and removed again with prune_taxa_with_labels, or the taxa of a second live tree on a "
+             "different subset; the tree and therefore every reference value is the same in all modes. "
              "explicit: hand-written boundary cases incl. DESIGN.md's ((a:1.9,b:1):1,c:3.8) at precision 1.0. "
              "Non-trivial = >= 2 leaves (ages/depths) or >= 3 leaves (stats/gamma); distinct = (sub-check, ordered "
              "tree with lengths, options)."),
@@ -245,6 +249,23 @@ def gamma_cases(draw, max_leaves):
     return case
 
 
+@st.composite
+def ns_modes(draw):
+    """What else lives in the namespace of the tree(s) of a case."""
+    mode = draw(st.sampled_from(["exact", "exact", "extra", "pruned", "shared"]))
+    if mode == "exact":
+        return {"mode": "exact"}
+    return {"mode": mode, "k": draw(st.integers(1, 4)), "extras_first": draw(st.booleans()),
+            "targets": draw(st.lists(st.integers(0, 50), min_size=1, max_size=4))}
+
+
+@st.composite
+def with_ns(draw, cases):
+    case = draw(cases)
+    case["ns"] = draw(ns_modes())
+    return case
+
+
 HISTORY_QUERIES = ["lineages", "lineages", "lineages", "depthfns", "max_distance", "minmax", "forced_max", "forced_min",
                    "ages_disabled", "ages_checked", "node_ages", "resolve"]
 HISTORY_MUTATIONS = ["scale", "scale", "set_length", "add_length", "remove_leaf", "add_leaf", "reroot"]
@@ -353,6 +374,10 @@ def tree_is_exact(rt, extra=()):
     return all(is_exact(v) for v in vals)
 
 
+def ns_class(ctx, case, prefix):
+    ctx.cls("%s:namespace:%s" % (prefix, (case.get("ns") or {}).get("mode", "exact")))
+
+
 def shape_classes(ctx, rt, prefix):
     n = rt.n_leaves()
     ctx.cls("%s:leaves:%s" % (prefix, "1" if n == 1 else "2" if n == 2 else "3-5" if n <= 5 else "6-10" if n <= 10 else ">10"))
@@ -365,8 +390,43 @@ def shape_classes(ctx, rt, prefix):
         ctx.cls(prefix + ":has_zero_length_edge")
 
 
-def build(spec):
-    tree = shapes.build_tree(spec, is_rooted=True)
+def build(spec, ns=None):
+    """DendroPy tree + snapshot.  `ns` (plain data, see ns_modes) decides what ELSE lives in the tree's namespace:
+    nothing (exact), unused taxa (extra), taxa of tips that were attached and pruned again with
+    prune_taxa_with_labels (pruned), or the taxa of a second tree on a different subset (shared).  The tree itself is
+    the same in every mode, so all reference values stay functions of the tree alone."""
+    mode = (ns or {}).get("mode", "exact")
+    if mode == "exact":
+        tree = shapes.build_tree(spec, is_rooted=True)
+    else:
+        import dendropy
+        n = 1 + max([x["t"] for x in shapes.spec_nodes(spec) if x["t"] is not None] + [-1])
+        k = ns["k"]
+        order = list(range(n + k))
+        if ns.get("extras_first"):
+            order = order[n:] + order[:n]
+        nsobj, taxa, _ = shapes.build_namespace({"extra": k, "order": order, "removed": [], "sort": None})
+        tree = shapes.build_tree(spec, nsobj, taxa, is_rooted=True)
+        extras = [taxa[n + j] for j in range(k)]
+        if mode == "pruned":
+            before, _ = snapshot(tree)
+            hosts = [i for i in before.nodes() if len(before.children[i]) >= 2]
+            if hosts:
+                for j, t in enumerate(extras):
+                    host = before.obj[hosts[ns["targets"][j % len(ns["targets"])] % len(hosts)]]
+                    host.new_child(taxon=t, edge_length=1.0)
+                tree.prune_taxa_with_labels([t.label for t in extras], suppress_unifurcations=False)
+                after, _ = snapshot(tree)
+                if after.canon(ordered=True, lengths=True) != before.canon(ordered=True, lengths=True):
+                    raise runner.HarnessError("attach + prune_taxa_with_labels did not restore the tree: %s -> %s" % (
+                        before.canon(ordered=True, lengths=True), after.canon(ordered=True, lengths=True)))
+        elif mode == "shared":
+            other = dendropy.Tree(taxon_namespace=nsobj)
+            for t in extras + ([taxa[0]] if n else []):
+                other.seed_node.new_child(taxon=t, edge_length=1.0)
+            tree._c17_other_tree = other      # keep the second tree alive next to the first
+        if len(tree.taxon_namespace) != n + k:
+            raise runner.HarnessError("namespace does not hold the extra taxa")
     rt, problems = snapshot(tree)
     if problems:
         raise runner.HarnessError("built tree not well formed: %r" % problems)
@@ -384,7 +444,7 @@ def lengths_now(rt):
 def check_ages(ctx, case):
     from dendropy.utility import error
     spec = apply_shifts(case["spec"], case["shifts"]) if case["shifts"] else case["spec"]
-    tree, pre = build(spec)
+    tree, pre = build(spec, case.get("ns"))
     nodes = pre.nodes()
     nonroot = [i for i in nodes if i != pre.root]
     leaves = pre.leaves()
@@ -427,6 +487,7 @@ def check_ages(ctx, case):
     ctx.cls("ages:family:%s" % ("exact" if not case["shifts"] else "one_shift" if len(case["shifts"]) == 1 else "two_shifts"))
     ctx.cls("ages:heights:%s" % case["heights"])
     shape_classes(ctx, pre, "ages")
+    ns_class(ctx, case, "ages")
     if checked and not must_reject and not must_accept:
         ctx.cls("ages:inside_rounding_band_no_verdict")
     if checked and exact and spread == p and p > 0:
@@ -649,7 +710,7 @@ def check_lineages(ctx, tree, rt, dsel, node_depths_too, tag):
 def check_depths(ctx, case):
     from dendropy.calculate import treemeasure as tm
     spec = case["spec"]
-    tree, pre = build(spec)
+    tree, pre = build(spec, case.get("ns"))
     nodes = pre.nodes()
     nonroot = [i for i in nodes if i != pre.root]
     internals = pre.internals()
@@ -657,6 +718,7 @@ def check_depths(ctx, case):
     tag = "lenpat=%s leafonly=%r tree=%s" % (case["lenpat"], case["leafonly"], pre.canon(ordered=True, lengths=True))
     ctx.cls("depths:lenpat:%s" % case["lenpat"])
     shape_classes(ctx, pre, "depths")
+    ns_class(ctx, case, "depths")
     if n >= 2:
         ctx.nontrivial(["depths", pre.canon(ordered=True, lengths=True), case["leafonly"], repr(case["prec"])])
     dep = check_depth_functions(ctx, tree, pre, case["leafonly"], case["attr"], tag)
@@ -695,7 +757,7 @@ def check_depths(ctx, case):
     # calc_node_ages on a general (usually non-ultrametric) tree: forcing and disabled check
     lo, hi = ref_tip_ranges(pre)
     for force in ("max", "min"):
-        t2, r2 = build(spec)
+        t2, r2 = build(spec, case.get("ns"))
         kw, _ = prec_info(case["prec"])      # forcing ignores the precision, whatever it is
         kw["is_force_%s_age" % force] = True
         got = ctx.call("C17.calc_node_ages", t2.calc_node_ages, **kw)
@@ -710,7 +772,7 @@ def check_depths(ctx, case):
     ctx.cls("depths:ultrametric" if spread == 0 else "depths:non_ultrametric")
     kw, p = prec_info(case["prec"])
     if p is None:
-        t3, r3 = build(spec)
+        t3, r3 = build(spec, case.get("ns"))
         ctx.call("C17.calc_node_ages", t3.calc_node_ages, **kw)   # any exception here is a violation
         slack = 1e-12 * (1.0 + H)
         for i in nodes:
@@ -721,7 +783,7 @@ def check_depths(ctx, case):
     elif spread > p * 2 + 1e-9 * (1.0 + H) or (exact and spread > p):
         # clearly non-ultrametric general tree with the check on: rejected unless only the known local-comparison gap
         from dendropy.utility import error
-        t3, r3 = build(spec)
+        t3, r3 = build(spec, case.get("ns"))
         try:
             ctx.call("C17.calc_node_ages", t3.calc_node_ages, _allowed=(ValueError,), **kw)
         except ValueError as e:
@@ -864,10 +926,11 @@ def history_mutate(ctx, tree, rt, step):
 
 
 def check_history(ctx, case):
-    tree, rt = build(case["spec"])
+    tree, rt = build(case["spec"], case.get("ns"))
     start = rt.canon(ordered=True, lengths=True)
     log = []
     ctx.cls("history:lenpat:%s" % case["lenpat"])
+    ns_class(ctx, case, "history")
     ctx.nontrivial(["history", start, case["first"], [(s["mut"], s["target"], s["val"], s["flag"], s["queries"]) for s in case["steps"]]])
     ctx.sample("history", case)
 
@@ -995,11 +1058,11 @@ def library_stats(ctx, tree, keys, alias):
 
 
 def check_stats(ctx, case):
-    tree, pre = build(case["spec"])
-    tree2, pre2 = build(case["perm"])
+    tree, pre = build(case["spec"], case.get("ns"))
+    tree2, pre2 = build(case["perm"], case.get("ns"))
     want, s = expected_stats(pre)
     n = s["n"]
-    tag = "n=%d lenpat=%s alias=%r tree=%s" % (n, case["lenpat"], case["alias"], pre.canon(ordered=True, lengths=True))
+    tag = "n=%d lenpat=%s alias=%r namespace=%r tree=%s" % (n, case["lenpat"], case["alias"], case.get("ns"), pre.canon(ordered=True, lengths=True))
     ctx.cls("stats:lenpat:%s" % case["lenpat"])
     ctx.cls("stats:%s" % ("strictly_binary" if s["binary"] else "not_binary"))
     if "treeness" in want:
@@ -1007,8 +1070,9 @@ def check_stats(ctx, case):
     if pre.canon(ordered=True) != pre2.canon(ordered=True):
         ctx.cls("stats:child_order_really_permuted")
     shape_classes(ctx, pre, "stats")
+    ns_class(ctx, case, "stats")
     if n >= 3:
-        ctx.nontrivial(["stats", pre.canon(ordered=True, lengths=True), case["alias"]])
+        ctx.nontrivial(["stats", pre.canon(ordered=True, lengths=True), case["alias"], (case.get("ns") or {}).get("mode")])
     if pre.canon(lengths=True) != pre2.canon(lengths=True):
         raise runner.HarnessError("permuted spec is a different tree")
     keys = sorted(want)
@@ -1073,7 +1137,7 @@ def check_gamma(ctx, case):
     spec = case["spec"]
     if case["shift"]:
         spec = apply_shifts(spec, [case["shift"]])
-    tree, pre = build(spec)
+    tree, pre = build(spec, case.get("ns"))
     n = pre.n_leaves()
     binary = all(len(pre.children[i]) == 2 for i in pre.internals())
     prec = case["prec"]
@@ -1083,6 +1147,7 @@ def check_gamma(ctx, case):
     tag = "kind=%s prec=%r spelling=%s shift=%r tree=%s" % (kind, prec, case["spelling"], case["shift"],
                                                            pre.canon(ordered=True, lengths=True))
     ctx.cls("gamma:kind:%s" % kind)
+    ns_class(ctx, case, "gamma")
     ctx.cls("gamma:heights:%s" % case["heights"])
     ctx.cls("gamma:prec:%r" % (prec,))
     ctx.cls("gamma:spelling:%s" % case["spelling"])
@@ -1171,7 +1236,7 @@ def check_gamma(ctx, case):
         ctx.check(ok, "gamma_of_tree_within_prec_close_to_formula", "C17.gamma_value_perturbed",
                   lambda: "got %r want %r +- %r; %s" % (g, want, bound, tag))
     if not case["shift"]:
-        tree2, pre2 = build(case["perm"])
+        tree2, pre2 = build(case["perm"], case.get("ns"))
         if pre2.canon(lengths=True) != pre.canon(lengths=True):
             raise runner.HarnessError("permuted spec is a different tree")
         g2 = ctx.call("C17.gamma", tm.pybus_harvey_gamma, tree2)
@@ -1232,8 +1297,8 @@ def run(ctx):
     totals = {"ages": 2000, "depths": 700, "stats": 900, "gamma": 700, "history": 800} if quick else \
         {"ages": 24000, "depths": 8000, "stats": 10000, "gamma": 8000, "history": 10000}
     runner.run_items(ctx, "explicit", explicit_cases(), check_ages)
-    runner.run_given(ctx, "ages", age_cases(max_leaves), check_ages, totals["ages"] / ctx.nshards)
-    runner.run_given(ctx, "depths", depth_cases(max_leaves), check_depths, totals["depths"] / ctx.nshards)
-    runner.run_given(ctx, "stats", stat_cases(max_leaves), check_stats, totals["stats"] / ctx.nshards)
-    runner.run_given(ctx, "gamma", gamma_cases(max_leaves), check_gamma, totals["gamma"] / ctx.nshards)
-    runner.run_given(ctx, "history", history_cases(max_leaves), check_history, totals["history"] / ctx.nshards)
+    runner.run_given(ctx, "ages", with_ns(age_cases(max_leaves)), check_ages, totals["ages"] / ctx.nshards)
+    runner.run_given(ctx, "depths", with_ns(depth_cases(max_leaves)), check_depths, totals["depths"] / ctx.nshards)
+    runner.run_given(ctx, "stats", with_ns(stat_cases(max_leaves)), check_stats, totals["stats"] / ctx.nshards)
+    runner.run_given(ctx, "gamma", with_ns(gamma_cases(max_leaves)), check_gamma, totals["gamma"] / ctx.nshards)
+    runner.run_given(ctx, "history", with_ns(history_cases(max_leaves)), check_history, totals["history"] / ctx.nshards)
